@@ -15,6 +15,7 @@ RULE = ("generated cases write a parameter file (random group names, a random tr
         "pKa and a non-zero charge; inner cut-offs < outer. Non-trivial: a generated file with >= 4 "
         "groups and >= 3 pair entries, or a shipped-table pair; distinct = distinct file digests / pairs.")
 EXPLANATION = "the shipped-table part enumerates all pairs of creatable side-chain group types (exhaustive for that sub-claim)"
+RULE = RULE + ' Round 8: after each real run the parameter tables held by the molecule are compared with a freshly read file.'
 ASSUMPTIONS = ["ION, BBN and BBC never enter the pair loop through the matrix; LG/ALG/BLG and SER are never created "
                "under the shipped configuration (ligand_typing groups; SER-OG maps to ROH)"]
 TIMEOUT = {"quick": 1200, "thorough": 7200}
